@@ -151,6 +151,10 @@ package task
 //@ ghost var tok int
 //@ ghost func semLimited() bool
 //@ typeinv *github.com/go-task/task/v3.Executor : (self.concurrencySemaphore != nil) == semLimited()
+// The semaphore is the ONLY bound on tasks: the groups that start deps and parallel calls are unlimited, so a
+// sibling that merely waits (it has handed its slot back) never keeps an independent dep from being started.
+// (The groups of the reader and of the graph merge start no tasks; they may be limited.)
+//@ callers maybe-absent errgroup.(*Group).SetLimit errgroup.(*Group).TryGo : taskfile.* ast.*             [C07]
 
 // A slot is taken by sending on the semaphore channel and given back by receiving from it. The channel has
 // capacity N, so at most N goroutines hold a slot (assumed channel semantics).
@@ -214,6 +218,8 @@ package task
 //@ ghost var nestFailed bool scratch
 //@ ghost var runCtx context.Context scratch
 //@ ghost var execErr error scratch
+//@ ghost var sharedCause error scratch
+//@ ghost var waited bool scratch
 //@ ghost var fullTask *ast.Task scratch
 //@ ghost fact execOK(h string)
 //@ ghost fact execFinished(h string)   -- the registered execution for key h has returned (with any outcome)
@@ -419,6 +425,12 @@ package task
 //@   site recv#1 requires notAncestor(h)                                                               [C07]
 //@   ensures result == nil && h != "" ==> execOK(h)   -- first caller and waiters alike return nil only for a successful execution  [C01,C06,C13,C02]
 //@   nosite delete                     -- an execution key, once registered, is never unregistered     [C06]
+// A waiter's error IS the error the one real execution ended with (the raw exit status, seen by errors.As and by
+// task-level ignore_error exactly as the first caller sees it), not a value derived from it
+//@   site context.Cause#1 ghost sharedCause := result
+//@   site context.Cause#1 ghost waited := true
+//@   init waited := false
+//@   ensures waited ==> result == nil || result == sharedCause                                           [C03]
 
 // Callees of runCommand whose bodies are outside this proof (trusted frames).
 //@ func (*Compiler).FastGetVariables
@@ -654,6 +666,8 @@ package task
 //@ ghost var dotSeen bool scratch
 //@ ghost var dotPending bool scratch
 //@ ghost var nMethodStores int scratch
+//@ ghost var rvDirty bool scratch
+//@ ghost var lastRV *ast.Vars scratch
 //@ func (*Executor).compiledTask
 // among the dotenv files of a task the FIRST file that defines a name wins: an entry is only added when the
 // name has not been taken yet
@@ -667,6 +681,25 @@ package task
 //@   site os.IsNotExist#1 ghost dotPending := !result
 //@   site godotenv.Read#0 ghost dotPending := false
 //@   loop 1 invariant !dotPending                                                                              [C10]
+// the environment of the compiled task is built from exactly three layers, in this order (Vars.Merge overwrites, so
+// the order is the precedence): the Taskfile's env, the task's dotenv files, the task's own env - each of them the
+// templated copy of that source AS IT IS (nothing is put into a copy between templating and merging: a value taken
+// from the variable namespace, where a like-named var of a higher layer has already replaced the env entry, would
+// be exported in its place)
+//@   init rvDirty := false
+//@   site (*Vars).Set#0 ghost rvDirty := true
+//@   site templater.ReplaceVars#1 requires arg0 == e.Taskfile.Env                                              [C10]
+//@   site templater.ReplaceVars#1 ghost lastRV := result
+//@   site templater.ReplaceVars#1 ghost rvDirty := false
+//@   site (*Vars).Merge#1 requires arg0 == new.Env && arg1 == lastRV && !rvDirty                               [C10]
+//@   site templater.ReplaceVars#2 requires arg0 == dotenvEnvs                                                  [C10]
+//@   site templater.ReplaceVars#2 ghost lastRV := result
+//@   site templater.ReplaceVars#2 ghost rvDirty := false
+//@   site (*Vars).Merge#2 requires arg0 == new.Env && arg1 == lastRV && !rvDirty                               [C10]
+//@   site templater.ReplaceVars#3 requires arg0 == origTask.Env                                                [C10]
+//@   site templater.ReplaceVars#3 ghost lastRV := result
+//@   site templater.ReplaceVars#3 ghost rvDirty := false
+//@   site (*Vars).Merge#3 requires arg0 == new.Env && arg1 == lastRV && !rvDirty                               [C10]
 //@   site append requires fresh(arg1[0])                                                                       [C11,C18,C14]
 // every command put into the compiled task (one per loop item, deferred, plain) keeps the attributes that
 // decide how its failure and its output are treated
